@@ -261,3 +261,24 @@ fn t10_same_trader_on_two_vamms_has_two_positions() {
     assert_eq!(vamm1.state(&router).unwrap().total_position_size, Integer::zero());
     assert_eq!(vamm2.state(&router).unwrap().total_position_size, p2.size);
 }
+
+/// (e) addresses that differ only in the case of their characters are different accounts: the key must not fold case.
+/// (The upper-case account cannot hold cw20 funds - the mock API refuses to validate a non-normalised address - but it can send
+/// messages, which is all that is needed: whatever it attempts must not touch the other account's record.)
+#[test]
+fn t10_addresses_differing_only_in_case_do_not_alias() {
+    let SimpleScenario { mut router, alice, engine, vamm, .. } = SimpleScenario::new();
+    let upper = Addr::unchecked(alice.as_str().to_uppercase());
+    assert_ne!(alice, upper);
+    let p_alice = open(&mut router, &engine, &vamm, &Order { trader: alice.clone(), side: Side::Buy, margin: 10, leverage: 3 });
+    // the other account has nothing
+    let other = engine.position(&router, vamm.addr().to_string(), upper.to_string());
+    assert!(other.is_err() || other.unwrap().size == Integer::zero());
+    // whatever it attempts must not touch alice's record
+    let msg = engine.close_position(vamm.addr().to_string(), Uint128::zero()).unwrap();
+    let _ = router.execute(upper.clone(), msg);
+    let msg = engine.withdraw_margin(vamm.addr().to_string(), to_decimals(1)).unwrap();
+    let _ = router.execute(upper.clone(), msg);
+    let still = engine.position(&router, vamm.addr().to_string(), alice.to_string()).unwrap();
+    assert_eq!(still, p_alice);
+}
